@@ -143,7 +143,92 @@ fn ready(s: State) -> bool {
     )
 }
 
+/// The same page list sent twice through ONE controller object, with someone else replacing the sign's pages in
+/// between (a second controller object for the same sign, or raw protocol traffic): after the second send the sign must
+/// hold exactly that list again - what a controller object remembers about its own earlier calls says nothing about
+/// what the sign holds now.
+#[derive(Serialize, Deserialize, Debug, Clone, PartialEq, Eq, Hash)]
+pub struct ResendCase {
+    pub sign_type: u8,
+    pub automatic: bool,
+    pub addr: u16,
+    pub pages: Vec<PageSpec>,
+    /// 0 nobody, 1 a second Sign object sends other pages, 2 raw traffic loads other pages, 3 the sign is reset and
+    /// reconfigured (same type) by a second Sign object which sends nothing
+    pub intruder: u8,
+    /// the first controller calls configure_if_needed before its second send
+    pub if_needed_before_resend: bool,
+}
+
+pub fn check_resend(c: &ResendCase, st: &mut Stats) -> Result<(), String> {
+    let (t, _, _, w, h) = TYPES[c.sign_type as usize % 11];
+    let flip = if c.automatic { PageFlipStyle::Automatic } else { PageFlipStyle::Manual };
+    let bus = Rc::new(RefCell::new(VirtualSignBus::new(vec![VirtualSign::new(Address(c.addr), flip)])));
+    let first = Sign::new(bus.clone(), Address(c.addr), t);
+    let list: Vec<Page<'static>> = c.pages.iter().map(|s| make_page(s, w, h)).collect();
+    let holds = |what: &str, want: &[Page<'static>]| -> Result<(), String> {
+        let b = bus.borrow();
+        let got = b.sign(0).pages();
+        if got.len() != want.len() || got.iter().zip(want.iter()).any(|(a, b)| a.as_bytes() != b.as_bytes()) {
+            return Err(format!("{what}: the sign holds {} pages (ids {:?}), not the {} pages just sent (ids {:?})", got.len(), got.iter().map(|p| p.id().0).collect::<Vec<_>>(), want.len(), want.iter().map(|p| p.id().0).collect::<Vec<_>>()));
+        }
+        Ok(())
+    };
+    let send = |who: &Sign, what: &str, pages: &[Page<'static>]| -> Result<(), String> {
+        let style = catch(|| who.send_pages(pages)).map_err(|p| format!("{what}: send_pages panicked: {p}"))?.map_err(|e| format!("{what}: send_pages failed: {e}"))?;
+        if style != flip {
+            return Err(format!("{what}: send_pages reported {style:?} for a {flip:?} sign"));
+        }
+        Ok(())
+    };
+    catch(|| first.configure()).map_err(|p| format!("configure panicked: {p}"))?.map_err(|e| format!("configure failed: {e}"))?;
+    send(&first, "first send", &list)?;
+    st.eval();
+    holds("first send", &list)?;
+    match c.intruder % 4 {
+        0 => {}
+        1 => {
+            let second = Sign::new(bus.clone(), Address(c.addr), t);
+            let other: Vec<Page<'static>> = vec![make_page(&PageSpec::Bits(0xEE, 4242), w, h)];
+            catch(|| second.configure_if_needed()).map_err(|p| format!("second controller: configure_if_needed panicked: {p}"))?.map_err(|e| format!("second controller: configure_if_needed failed: {e}"))?;
+            send(&second, "second controller", &other)?;
+            holds("second controller", &other)?;
+        }
+        2 => {
+            let ops = [HOp::Pixels { addr: c.addr, pages: 1, seed: 99, fault: Fault::None, complete: true }];
+            for op in &ops {
+                for m in expand(op, w, h) {
+                    let _ = catch(|| bus.borrow_mut().process_message(m.to_message()).map(|_| ())).map_err(|p| format!("raw traffic panicked: {p}"))?;
+                }
+            }
+        }
+        _ => {
+            let second = Sign::new(bus.clone(), Address(c.addr), t);
+            catch(|| second.configure()).map_err(|p| format!("second controller: configure panicked: {p}"))?.map_err(|e| format!("second controller: configure failed: {e}"))?;
+        }
+    }
+    st.eval();
+    if c.if_needed_before_resend || c.intruder % 4 == 3 {
+        catch(|| first.configure_if_needed()).map_err(|p| format!("configure_if_needed panicked: {p}"))?.map_err(|e| format!("configure_if_needed failed: {e}"))?;
+    }
+    send(&first, "second send of the same list", &list)?;
+    st.eval();
+    holds("second send of the same list through the same controller object", &list)?;
+    let want_state = if c.automatic { State::ShowingPages } else { State::PageLoaded };
+    if bus.borrow().sign(0).state() != want_state || bus.borrow().sign(0).sign_type() != Some(t) {
+        return Err(format!("after the second send the sign is {:?} / {:?}", bus.borrow().sign(0).state(), bus.borrow().sign(0).sign_type()));
+    }
+    st.nontrivial(h64(c));
+    st.class(["resend:nobody-in-between", "resend:second-controller-in-between", "resend:raw-traffic-in-between", "resend:reset-in-between"][(c.intruder % 4) as usize]);
+    Ok(())
+}
+
 pub fn check_scenario(c: &Scenario, st: &mut Stats) -> Result<(), String> {
+    let _announced = if crate::props::c12::heavy(&c.prior) || c.rounds.iter().any(|r| r.pages.len() > 100) {
+        Some(crate::engine::inflight("C08", "scenarios", || serde_json::to_value(c).unwrap_or_default()))
+    } else {
+        None
+    };
     let (t, _, _, w, h) = TYPES[c.sign_type as usize % 11];
     let flip = if c.automatic { PageFlipStyle::Automatic } else { PageFlipStyle::Manual };
     let mut signs = vec![VirtualSign::new(Address(c.addr), flip)];
@@ -461,8 +546,26 @@ pub fn run(ctx: &Ctx) {
     });
     ctx.part_done("long-page-lists", true, json!("255, 256, 257 and 300 pages in one send_pages call, two sign types, both flip styles"));
 
+    // the same list twice through one controller object, with and without somebody else in between
+    par_range(ctx, "resend-same-list", 11 * 2 * 4 * 2, |i, st| {
+        let c = ResendCase {
+            sign_type: (i % 11) as u8,
+            automatic: (i / 11) % 2 == 1,
+            addr: [3u16, 0, 0xFFFF, 0x0100][(i % 4) as usize],
+            pages: match i % 3 {
+                0 => vec![PageSpec::Bits(1, i)],
+                1 => vec![PageSpec::Bits(7, i), PageSpec::Raw(i + 1)],
+                _ => vec![PageSpec::Full(2), PageSpec::Blank(3), PageSpec::Bits(4, i)],
+            },
+            intruder: ((i / 22) % 4) as u8,
+            if_needed_before_resend: (i / 88) % 2 == 1,
+        };
+        check_resend(&c, st).map_err(|m| (serde_json::to_value(&c).unwrap(), m))
+    });
+    ctx.part_done("resend-same-list", true, json!("11 types x 2 flip styles x {nobody, second controller object, raw traffic, reset + reconfigure} in between x {plain, configure_if_needed first}: the same page list sent twice through one controller object"));
+
     let max_pages = ctx.tier.pick(4, 12);
-    run_generated(ctx, "scenarios", ctx.tier.pick(150_000, 2_000_000), move || scenario_strategy(max_pages), |c, st| check_scenario(c, st));
+    run_generated(ctx, "scenarios", ctx.tier.pick(450_000, 3_000_000), move || scenario_strategy(max_pages), |c, st| check_scenario(c, st));
 
     crate::engine::with_logging(|| {
         run_generated(ctx, "scenarios+logging", ctx.tier.pick(15_000, 200_000), move || scenario_strategy(max_pages), |c, st| check_scenario(c, st));
@@ -480,7 +583,11 @@ pub fn run(ctx: &Ctx) {
     }
 }
 
-pub fn replay(_part: &str, case: &Value) -> Result<(), String> {
+pub fn replay(part: &str, case: &Value) -> Result<(), String> {
+    if part == "resend-same-list" {
+        let c: ResendCase = serde_json::from_value(case.clone()).map_err(|e| format!("bad case: {e}"))?;
+        return check_resend(&c, &mut Stats::new());
+    }
     let c: Scenario = serde_json::from_value(case.clone()).map_err(|e| format!("bad case: {e}"))?;
     check_scenario(&c, &mut Stats::new())
 }
